@@ -229,6 +229,10 @@ S(P(O("a", "", "o", "int", 9), A("b", "str")), "option whose short name is empty
 S(P(SW("a", "-x", "no-color"), P(O("b", None, "-v", "str", "d"), A("c", "str"))), "names that contain and start with dashes")
 S(MANY(US("a", "kk", "k")), "unit_switch with a two-character short name, repeated")
 
+# ---- default values as usage prints them
+S(P(O("a", None, "o", "int", -7, "negative default"), P(O("b", "u", "up", "uns", 4294967295), O("c", None, "s", "str", "two words"))),
+  "defaults: negative int, largest unsigned, string with a blank")
+
 SHAPES = _S
 
 LABELS = ["a", "b", "c", "d", "e", "g", "s", "t", "x", "y", "z"]
